@@ -353,7 +353,10 @@ ValidFrames ==
          EncPacket({}, MkXR(<< XrB("lrle"), XrB("unk") >>)), EncPacket({}, RawOf(205, 3, Ramp(8, 50))),
          \* frames with the P bit set: an APP with unaligned data, a padded TWCC, a raw frame
          EncPacket({}, [BaseAPP EXCEPT !.data = Ramp(5, 32)]), EncPacket({}, MkTWCC(1, << Rl(1, 1) >>, << Dl(1, 7) >>, TRUE)),
-         << 128 + 32 + 3, 199, 0, 1, 9, 9, 9, 4 >> }
+         << 128 + 32 + 3, 199, 0, 1, 9, 9, 9, 4 >>,
+         \* a receiver report and a sender report padded the RFC 3550 way (P bit, null octets, count in the last octet)
+         << 128 + 32, 201, 0, 2, 1, 2, 3, 4, 0, 0, 0, 4 >>,
+         << 128 + 32, 200, 0, 8 >> \o D4(1) \o D8(5) \o D4(13) \o D4(129) \o D4(145) \o << 0, 0, 0, 0, 0, 0, 0, 8 >> }
 \* one frame whose length field also covers what would otherwise be the next packets: the surplus is a run of
 \* complete, valid RTCP packets (a splitter that looks inside a frame for packets shows here)
 SwallowFrames ==
